@@ -82,13 +82,15 @@ type Solver struct {
 	tmoMs  int
 	frames [][]string
 	curTmo int
+	alt    *Solver // optional second solver (cvc5) mirrored and consulted when the primary answers unknown
+	lastSat *Solver
 }
 
 func NewSolver(bin string, tmoMs int) *Solver {
 	s := &Solver{bin: bin, tmoMs: tmoMs}
 	switch {
 	case strings.Contains(bin, "cvc5"):
-		s.args = []string{"--incremental", "--lang=smt2", "--strings-exp", fmt.Sprintf("--tlimit-per=%d", tmoMs)}
+		s.args = []string{"--incremental", "--lang=smt2", "--strings-exp", "--strings-model-max-len=2147483647", fmt.Sprintf("--tlimit-per=%d", tmoMs)}
 	default:
 		s.args = []string{"-in", fmt.Sprintf("-t:%d", tmoMs)}
 	}
@@ -122,6 +124,9 @@ func (s *Solver) start() {
 }
 
 func (s *Solver) Close() {
+	if s.alt != nil {
+		s.alt.Close()
+	}
 	if s.cmd != nil && s.cmd.Process != nil {
 		s.in.Close()
 		s.cmd.Process.Kill()
@@ -139,11 +144,17 @@ func (s *Solver) send(str string) {
 }
 
 func (s *Solver) Push() {
+	if s.alt != nil {
+		s.alt.Push()
+	}
 	s.send("(push 1)")
 	s.depth++
 	s.frames = append(s.frames, nil)
 }
 func (s *Solver) Pop() {
+	if s.alt != nil {
+		s.alt.Pop()
+	}
 	s.send("(pop 1)")
 	s.depth--
 	if len(s.frames) > 0 {
@@ -227,16 +238,25 @@ func (s *Solver) ResetTo(depth int) {
 
 func (s *Solver) Declare(name string, sort Sort) {
 	c := fmt.Sprintf("(declare-const %s %s)", name, sort.smt())
+	if s.alt != nil {
+		s.alt.Declare(name, sort)
+	}
 	s.record(c)
 	s.send(c)
 }
 
 func (s *Solver) DeclareRaw(c string) {
+	if s.alt != nil {
+		s.alt.DeclareRaw(c)
+	}
 	s.record(c)
 	s.send(c)
 }
 
 func (s *Solver) Assert(t string) {
+	if s.alt != nil {
+		s.alt.Assert(t)
+	}
 	c := "(assert " + t + ")"
 	s.record(c)
 	s.send(c)
@@ -261,6 +281,51 @@ func (s *Solver) readLine() (string, error) {
 // solver process when it ignores its soft timeout; the answer is then Unknown
 // and the solver is marked dead (the caller must abandon the current path).
 func (s *Solver) Check() SatResult {
+	if s.alt == nil {
+		return s.check1()
+	}
+	if s.dead {
+		s.resync()
+	}
+	r := s.check1()
+	s.lastSat = s
+	if r != Unknown {
+		return r
+	}
+	if s.alt.dead {
+		s.alt.resync()
+	}
+	r2 := s.alt.check1()
+	if r2 == Sat {
+		s.lastSat = s.alt
+	}
+	return r2
+}
+
+// resync restarts a dead solver process and replays the recorded assertion stack.
+func (s *Solver) resync() {
+	if s.cmd != nil && s.cmd.Process != nil {
+		s.cmd.Process.Kill()
+		s.cmd.Wait()
+	}
+	frames := s.frames
+	s.start()
+	for i, f := range frames {
+		if i > 0 {
+			s.send("(push 1)")
+			s.depth++
+		}
+		for _, c := range f {
+			s.send(c)
+		}
+	}
+	s.frames = frames
+	if s.curTmo != 0 && !strings.Contains(s.bin, "cvc5") {
+		s.send(fmt.Sprintf("(set-option :timeout %d)", s.curTmo))
+	}
+}
+
+func (s *Solver) check1() SatResult {
 	t0 := time.Now()
 	if s.dead {
 		return Unknown
@@ -364,6 +429,9 @@ func (s *Solver) CheckWith(t string) SatResult {
 
 // GetValues evaluates the named constants in the current model (after a sat).
 func (s *Solver) GetValues(names []string) map[string]string {
+	if s.alt != nil && s.lastSat == s.alt {
+		return s.alt.GetValues(names)
+	}
 	res := map[string]string{}
 	for _, n := range names {
 		s.send("(get-value (" + n + "))")
